@@ -301,6 +301,13 @@ func (c07) Run(c *Ctx, i int) CaseResult {
 			return res
 		}
 	}
+	// L2: no error the execution reports is hidden by what the response middlewares do (Gateway.Execute's tail against Mw.execute)
+	for k := 0; k < 2; k++ {
+		if mf := MwExecuteCorr(c, c.Rand(i*100+k+97500000)); len(mf) > 0 {
+			res.Fails = append(res.Fails, mf...)
+			return res
+		}
+	}
 	rec := &TraceRec{}
 	fc, err := RunFed(c, in, 8*time.Second, gateway.WithLogger(TraceLogger{Rec: rec}))
 	if err != nil {
